@@ -60,9 +60,11 @@ def build_verus(run):
         ps.loop_body_end(0, """        proof {
             let n0 = verif_n0;
             let piece = out@.skip(verif_out1.len() as int);
-            reveal_with_fuel(json_chars, 3);
+            // the piece is of one of the known shapes and that shape denotes c (decided by shape, without unfolding the decoder)
             assert(hex_val('0') == 0);
-            assert(json_chars(piece) == Some(seq![c as int]));
+            assert(piece.len() == out@.len() - verif_out1.len());
+            assert(piece_code(piece) == Some(c as int));
+            lemma_piece(piece);
             assert(out@.skip(n0) =~= verif_out1.skip(n0) + piece);
             lemma_chars_append(verif_out1.skip(n0), piece);
             assert(codes(s@.take(verif_i as int)) =~= codes(s@.take(verif_i as int - 1)) + seq![c as int]);
